@@ -20,6 +20,8 @@ def main():
         r = verify_function(e, q)
         print(f"== {q}: paths={r.paths} obls={len(r.obligations)} err={r.error} gen={time.time()-t:.2f}s")
         allobls += r.obligations
+    from pyvc.verify import lemma_obligations
+    allobls += lemma_obligations(e)
     solve.discharge(allobls, "quick")
     for o in allobls:
         ok = (o.status == "discharged") if o.expect == "unsat" else (o.status == "refuted")
